@@ -2249,6 +2249,11 @@ static void _ov_getlap(OggVorbis_File *vf,vorbis_info *vi,vorbis_dsp_state *vd,
         memcpy(lappcm[i]+lapcount,pcm[i],sizeof(**pcm)*samples);
       lapcount+=samples;
       vorbis_synthesis_read(vd,samples);
+      /* these samples are consumed; keep the position cursor truthful in
+         case the handle goes on being read (seek refused, or the first
+         handle of a crosslap) */
+      if(vf->pcm_offset>=0)
+        vf->pcm_offset+=samples<<vorbis_synthesis_halfrate_p(vi);
     }else{
     /* suck in another packet */
       int ret=_fetch_and_process_packet(vf,NULL,1,0); /* do *not* span */
